@@ -7,7 +7,11 @@ use crate::proj;
 use crate::tok::{self, TKind};
 use serde_json::json;
 
-pub const FORMS: [(&str, &str, &str); 14] = [
+pub const FORMS: [(&str, &str, &str); 16] = [
+    // a comment directly after the left token, no blank in between (`Wind-Speed-- km/h`): `--` cannot be part of a
+    // reference or number, so it starts a comment (X.680 12.6.1)
+    ("line-comment-glued", "-- c\n", "comment"),
+    ("inline-comment-glued", "--c--", "comment"),
     ("tab", "\t", "ws"),
     ("lf", "\n", "ws"),
     ("crlf", "\r\n", "ws"),
@@ -344,7 +348,7 @@ pub fn run(ctx: &Ctx) -> Report {
     let corpus = load_corpus();
     let n_g = ctx.pick(90u64, 3000);
     let n_c = ctx.pick(50usize, 892);
-    let quick_forms: Vec<usize> = vec![0, 2, 4, 5, 7, 8, 11, 12];
+    let quick_forms: Vec<usize> = vec![0, 1, 2, 4, 6, 7, 9, 10, 13, 14];
     let all_forms: Vec<usize> = (0..FORMS.len()).collect();
     let forms = if ctx.quick() { quick_forms } else { all_forms };
     let max_b = ctx.pick(90usize, 300);
